@@ -210,6 +210,55 @@ def check(w, hist):
     return msgs
 
 
+REUSE_HISTS = [
+    [("send", 1, "fA"), ("send", 2, "fB"), ("send", 3, "fA")],
+    [("send", 1, "fB"), ("send", 2, "fA"), ("send", 1, "fA"), ("send", 2, "fB"), ("addon", -1, "gA"), ("send", 3, "fB")],
+    [("send", 1, "fA"), ("addon", -1, "gB"), ("send", 1, "fB"), ("send", 2, "fA"), ("send", 3, "fA"), ("send", 3, "fB")],
+]
+
+
+def check_reuse(cfg):
+    """one solver object used for several generator runs and batch solves in sequence (every ordered pair of three
+    complete histories, with a batch tsolve in between): each run must equal the same run on a fresh solver object,
+    and the arrays returned by the earlier run must not change"""
+    msgs = []
+    fresh = []
+    for h in REUSE_HISTS:
+        w = build(cfg, h)
+        fin = w.ts.finalize(get_force=True)
+        fresh.append([np.array(x) for x in (fin.d, fin.v, fin.a, fin.force)])
+    for a, b in itertools.product(range(len(REUSE_HISTS)), repeat=2):
+        w = build(cfg, REUSE_HISTS[a])
+        fin1 = w.ts.finalize(get_force=True)
+        keep = [np.array(x) for x in (fin1.d, fin1.v, fin1.a, fin1.force)]
+        ts = w.ts
+        sol = ts.tsolve(w.model.copy() * 0.5, **w.ic)  # a batch solve in between
+        # second generator run on the same solver object
+        w2 = World.__new__(World)
+        w2.cfg, w2.ts, w2.sys = cfg, ts, w.sys
+        n = w.sys["n"]
+        w2.F0, w2.fs, w2.gs, d0, v0 = vectors(n)
+        w2.ic = w.ic
+        w2.gen, w2.d, w2.v = ts.generator(NT, w2.F0, **w2.ic)
+        w2.model = np.zeros((n, NT))
+        w2.model[:, 0] = w2.F0
+        w2.cur = 0
+        w2.msgs = []
+        for ev in REUSE_HISTS[b]:
+            w2.apply(tuple(ev))
+        fin2 = ts.finalize(get_force=True)
+        for nm, x, y in zip(("d", "v", "a", "force"), (fin2.d, fin2.v, fin2.a, fin2.force), fresh[b]):
+            sc = max(1e-6, abs(y).max())
+            if x.shape != y.shape or abs(x - y).max() > TOL * sc:
+                msgs.append(([a, b], "second generator run on a used solver object: %s differs from the same run on a fresh object (rel %.3g)" % (nm, abs(x - y).max() / sc if x.shape == y.shape else float("nan"))))
+                break
+        for nm, x, y in zip(("d", "v", "a", "force"), (fin1.d, fin1.v, fin1.a, fin1.force), keep):
+            if not np.array_equal(x, y):
+                msgs.append(([a, b], "the solution returned by finalize() of an earlier run (%s) was modified by later use of the solver object" % nm))
+                break
+    return msgs
+
+
 def shape_of(hist):
     """event-shape signature of a history: advance / redo / jump-back / add-on pattern"""
     out = []
@@ -262,6 +311,9 @@ def run_shard(sh):
         return {"cfg": cfg, "hist": [list(e) for e in hist]}
 
     st = bfs(lambda h: build(cfg, h), enabled, chk, canon, sh["depth"], res, case_of)
+    for pair, m in check_reuse(cfg):
+        res.viol({"cfg": cfg, "reuse": pair}, m, kind="reuse")
+    res.ev("%s/solver-reuse" % cfg["kind"], n=0)
     res.counters["configs"] += 1
     res.counters["max_depth_%d" % st["max_depth"]] += 1
     res.sigs["cfg/" + tag] += 1
@@ -271,5 +323,7 @@ def run_shard(sh):
 
 
 def replay(case):
+    if "reuse" in case:
+        return [m for pair, m in check_reuse(case["cfg"]) if pair == case["reuse"]]
     w = build(case["cfg"], case["hist"])
     return check(w, case["hist"])
